@@ -49,6 +49,10 @@ type VirtualTable struct {
 	ColumnNameByIndex map[int]string
 	Tree              *KV
 	txStart           *kv.DB
+	// txFailed is the storage error of a write of the transaction in progress. The tree
+	// does not undo a write that failed half-way (a key inserted, the child below it not
+	// yet split), so such a transaction can only be rolled back.
+	txFailed error
 	KeyCol            int
 	usesRowID         bool
 
@@ -629,6 +633,7 @@ func (c *VirtualTable) Insert(ctx context.Context, values map[int]interface{}) (
 	merged := MergeRows(key, ot, old, t, &new, t)
 	err = c.Tree.Root.Set(ctx, t, NewKey(key), merged)
 	if err != nil {
+		c.txFailed = err
 		return 0, fmt.Errorf("set: %w", err)
 	}
 	return 0, nil
@@ -677,6 +682,7 @@ func (c *VirtualTable) Update(ctx context.Context, key interface{}, values map[i
 	merged := MergeRows(key, ot, old, t, &new, t)
 	err = c.Tree.Root.Set(ctx, t, NewKey(key), merged)
 	if err != nil {
+		c.txFailed = err
 		return fmt.Errorf("set: %w", err)
 	}
 	return nil
@@ -697,6 +703,7 @@ func (c *VirtualTable) Delete(ctx context.Context, key interface{}) error {
 	merged := MergeRows(key, ot, old, t, &new, t)
 	err = c.Tree.Root.Set(ctx, t, NewKey(key), merged)
 	if err != nil {
+		c.txFailed = err
 		return fmt.Errorf("set: %w", err)
 	}
 	return nil
@@ -813,11 +820,15 @@ func (c *VirtualTable) Begin(ctx context.Context) error {
 	if err != nil {
 		return fmt.Errorf("clone: %w", err)
 	}
+	c.txFailed = nil
 	return nil
 }
 
 func (c *VirtualTable) Commit(ctx context.Context) error {
 	dbg("COMMIT\n")
+	if c.txFailed != nil {
+		return fmt.Errorf("a write of this transaction failed and may have left the tree damaged, it has to be rolled back: %w", c.txFailed)
+	}
 	_, err := c.Tree.Root.Commit(ctx)
 	if err != nil {
 		return fmt.Errorf("commit tree: %w", err)
@@ -834,6 +845,7 @@ func (c *VirtualTable) EndReadOnly() {
 
 func (c *VirtualTable) Rollback() error {
 	dbg("ROLLBACK\n")
+	c.txFailed = nil
 	if c.txStart != nil {
 		c.Tree.Root.Cancel()
 		c.Tree.Root = c.txStart
